@@ -20,7 +20,7 @@ DepthsOK(ls) == /\ ls[1].d = 0
 Programs == {ls \in UNION {[1..n -> [d : 0..2, t : LineKinds]] : n \in 1..MaxLines} : DepthsOK(ls)}
 Layouts == [eol : {<<"LF">>, <<"CR">>, <<"CR", "LF">>}, unit : {<<"SP">>, <<"SP", "SP">>, <<"TAB">>}, trail : BOOLEAN, comment : BOOLEAN,
             bom : BOOLEAN, lastEol : BOOLEAN, at : 1..MaxLines,
-            feat : {"none", "blank", "wsblank", "oddcomment", "ff", "join", "brk"}]
+            feat : {"none", "blank", "wsblank", "oddcomment", "ff", "join", "brk", "joinmix", "brkmix", "brkcomment"}]
 
 Cls(t) == CASE t = "N" -> <<"La">> [] t = "C" -> <<"COLON">> [] t = "L" -> <<"LP">> [] t = "R" -> <<"RP">>
 RECURSIVE Rep(_, _)
@@ -32,7 +32,11 @@ LineToks(ts, k, L, special) ==
    ELSE Cls(ts[k])
         \o (IF k < Len(ts)
             THEN (IF special /\ L.feat = "join" /\ k = 1 THEN <<"SP", "BS">> \o L.eol \o <<"SP", "SP", "SP">>
+                  \* leading whitespace of a continuation line is not indentation: blank-then-tab is fine there
+                  ELSE IF special /\ L.feat = "joinmix" /\ k = 1 THEN <<"SP", "BS">> \o L.eol \o <<"SP", "TAB">>
                   ELSE IF special /\ L.feat = "brk" /\ ts[k] = "L" THEN L.eol \o <<"SP", "SP", "SP", "SP", "SP">>
+                  ELSE IF special /\ L.feat = "brkmix" /\ ts[k] = "L" THEN L.eol \o <<"SP", "TAB">> \o L.eol \o <<"SP", "TAB", "SP">>
+                  ELSE IF special /\ L.feat = "brkcomment" /\ ts[k] = "L" THEN L.eol \o <<"SP", "TAB", "HASH", "La">> \o L.eol \o <<"TAB", "SP", "TAB">>
                   ELSE <<"SP">>)
             ELSE <<>>)
         \o LineToks(ts, k + 1, L, special)
@@ -63,7 +67,7 @@ Kinds(ls, k, prev) ==
 RECURSIVE OffTab(_, _, _)
 OffTab(t, k, acc) == IF k > Len(t) THEN acc ELSE OffTab(t, k + 1, Append(acc, acc[Len(acc)] + Bytes(t[k])))
 Init == /\ prog \in Programs /\ lay \in Layouts /\ lay.at <= Len(prog)
-        /\ (lay.feat = "brk" => \E j \in 1..Len(prog[lay.at].t) : prog[lay.at].t[j] = "L")
+        /\ (lay.feat \in {"brk", "brkmix", "brkcomment"} => \E j \in 1..Len(prog[lay.at].t) : prog[lay.at].t[j] = "L")
         /\ inp = Text(prog, lay) /\ boff = OffTab(inp, 1, <<0>>) /\ InitLexer /\ out = <<>>
 StepA == Step /\ UNCHANGED <<prog, lay, out>>
 PopA == Pop /\ out' = (IF Head(pending).k = "EndOfFile" THEN out ELSE Append(out, Head(pending).k)) /\ UNCHANGED <<prog, lay>>
@@ -72,5 +76,7 @@ Spec == Init /\ [][Next]_vars
 
 \* M: no layout produces an error, and the delivered kinds are the logical program's
 NoError == err.k = "none"
+\* G: the same texts go to the real lexer, which must deliver the same kinds (binds this module to the code directly)
+EmitOK == (Emit /\ eof /\ pending = <<>>) => PrintT("REPLAY" \o ToJson([inp |-> inp, kinds |-> Kinds(prog, 1, 0), feat |-> lay.feat]))
 SameTokens == eof => SelectSeq(out, LAMBDA k : k \notin {"Comment", "NonLogicalNewline"}) = Kinds(prog, 1, 0)
 =======================================================================
